@@ -35,6 +35,9 @@ use crate::{
     },
 };
 
+#[cfg(feature = "__dnssec")]
+use crate::proto::dnssec::Proof;
+
 static LOCALHOST: Lazy<RData> =
     Lazy::new(|| RData::PTR(PTR(Name::from_ascii("localhost.").unwrap())));
 static LOCALHOST_V4: Lazy<RData> = Lazy::new(|| RData::A(A::new(127, 0, 0, 1)));
@@ -305,6 +308,26 @@ where
         let soa = response.soa().as_ref().map(RecordRef::to_owned);
         let negative_ttl = response.negative_ttl();
         let response_code = response.response_code;
+
+        // An alias that failed DNSSEC validation is not followed: whatever its target says, even a
+        // validated denial, tells nothing about the name that was asked.  The response is returned
+        // as it is, so that the Bogus proof of the CNAME stays visible to the caller.
+        #[cfg(feature = "__dnssec")]
+        if !query.query_type.is_any()
+            && !query.query_type.is_cname()
+            && response
+                .answers
+                .iter()
+                .any(|r| r.record_type() == RecordType::CNAME && r.proof == Proof::Bogus)
+        {
+            let mut message = response.into_message();
+            if !preserved_records.is_empty() {
+                preserved_records.append(&mut message.answers);
+                message.answers = preserved_records;
+            }
+            let message = message.maybe_strip_dnssec_records(options.edns_set_dnssec_ok);
+            return Ok(Records::Exists { message });
+        }
 
         // seek out CNAMES, this is only performed if the query is not a CNAME, ANY, or SRV
         // FIXME: for SRV this evaluation is inadequate. CNAME is a single chain to a single record
